@@ -43,6 +43,7 @@ type Thread struct {
 	waitFor    string      // description of what it waits for
 	blocked    bool        // set by the scheduler when it has observed the thread natively blocked
 	atomic     int         // >0: scheduling points suppressed
+	vc         vclock      // happens-before clock (hb.go)
 	Panic      any
 	PanicStack string
 }
@@ -67,6 +68,8 @@ type Trace struct {
 	Steps     int
 	VirtualNS int64
 	Aborted   bool
+	Races     []Race // data races found by the happens-before monitor (hb.go)
+	Accesses  int64  // monitored field accesses
 }
 
 // Choices returns the chosen indices.
@@ -101,6 +104,7 @@ type Sched struct {
 	OnQuiescent func() bool
 	// lock registry for leak / deadlock reporting
 	Locks []LockInfo
+	hb    *hbState
 }
 
 // LockInfo lets vsync objects report their state at the end of an execution.
@@ -357,6 +361,7 @@ func GoNamed(name string, f func()) {
 		}
 		return
 	}
+	_, parent := Self()
 	s.mu.Lock()
 	t := &Thread{ID: len(s.threads), Name: name, resume: make(chan struct{}, 1), state: stRunning}
 	if t.Name == "" {
@@ -364,6 +369,7 @@ func GoNamed(name string, f func()) {
 	}
 	s.threads = append(s.threads, t)
 	s.mu.Unlock()
+	hbFork(parent, t)
 	pc := callerPC(2)
 	registered := make(chan struct{})
 	go func() {
@@ -390,6 +396,7 @@ func WithCancel(parent context.Context) (context.Context, context.CancelFunc) {
 	ctx, cancel := context.WithCancel(parent)
 	return ctx, func() {
 		Yield("cancel")
+		HBRelease(ctx.Done())
 		cancel()
 	}
 }
@@ -465,6 +472,7 @@ func Run(t *testing.T, opts Options, setup func(s *Sched), finish func(s *Sched,
 	}()
 	synctest.Test(t, func(t *testing.T) {
 		s.wake = make(chan struct{}, 1) // must be created inside the bubble (blocking on it has to be durable)
+		s.hbInit()
 		cur = s
 		s.start = time.Now()
 		s.solo = true
@@ -474,6 +482,8 @@ func Run(t *testing.T, opts Options, setup func(s *Sched), finish func(s *Sched,
 		s.solo = true
 		s.running = nil
 		s.collectPanics()
+		s.trace.Races = s.Races()
+		s.trace.Accesses = s.HBAccesses()
 		if finish != nil {
 			finish(s, &s.trace)
 		}
